@@ -46,7 +46,7 @@ def main():
         args = args[2:]
         scratch = tempfile.mkdtemp(prefix="osq-wtkeys-")
         wt = os.path.join(scratch, "tree")
-        shutil.copytree("/repo", wt, symlinks=True, ignore=shutil.ignore_patterns(".git", "target"))
+        shutil.copytree(os.environ.get("BASE_REPO", "/repo"), wt, symlinks=True, ignore=shutil.ignore_patterns(".git", "target"))
         a = subprocess.run(["git", "apply", "--unsafe-paths", patch], cwd=wt, capture_output=True, text=True)
         if a.returncode != 0:
             shutil.rmtree(scratch)
